@@ -298,6 +298,60 @@ for _k in list(DUMPERS):
         DUMPERS[_k].add_representer(RQ, _r_rseq)
 USER_CLASSES = [LOADERS[('user', 'py')], LOADERS[('user', 'c')], DUMPERS[('user', 'py')], DUMPERS[('user', 'c')]]
 
+
+# ------------------------------------------------------------------ python objects of the pool (Api.tla: po sl ps pn pk ys yk)
+class Plain:                    # an ordinary class: state goes into __dict__
+    pass
+
+
+class Point:                    # slots only, no __dict__: state goes through setattr
+    __slots__ = ('x', 'y')
+
+
+class Bag:                      # takes its state itself: the loader constructs the state with deep=True
+    def __setstate__(self, state):
+        self.__dict__.update(state)
+
+
+class Pair:                     # created by python/object/new with arguments
+    def __new__(cls, *args):
+        self = object.__new__(cls)
+        self.args = args
+        return self
+
+
+class _StateHashed:
+    """__hash__ and __eq__ over the state: where such an object is a mapping key, it matters whether it was complete
+    when it was put into the mapping."""
+
+    def __hash__(self):
+        return hash(tuple(sorted(self.__dict__.items())))
+
+    def __eq__(self, other):
+        return type(other) is type(self) and self.__dict__ == other.__dict__
+
+
+class Key(_StateHashed):
+    pass
+
+
+class YBag(yaml.YAMLObject):
+    yaml_tag = '!Bag'
+    yaml_loader = [LOADERS[('user', 'py')], LOADERS[('user', 'c')]]
+    yaml_dumper = DUMPERS[('user', 'py')]
+
+    def __setstate__(self, state):
+        self.__dict__.update(state)
+
+
+class YKey(_StateHashed, yaml.YAMLObject):
+    yaml_tag = '!Key'
+    yaml_loader = [LOADERS[('user', 'py')], LOADERS[('user', 'c')]]
+    yaml_dumper = DUMPERS[('user', 'py')]
+
+
+PYTAG = '!!python/object:' + __name__ + '.'
+
 # ------------------------------------------------------------------ the pool: documents
 ITEM_TEXT = {
     's': '- sx', 'da': '- &a va', 'ua': '- *a', 'ub': '- *b', 'rec': '- &r [*r]',
@@ -306,6 +360,9 @@ ITEM_TEXT = {
     'dk': '- !!python/object/apply:collections.OrderedDict [!!python/name:no.such.module.x y]',
     'pt': '- {pk: ptv, other: [x, {pk: y}]}', 'ir': '- ir42',
     'cu': '- !u vu', 'cg': '- !ug [g1, !u g2]', 'cm': '- !um:sfx vm',
+    'po': '- ' + PYTAG + 'Plain {name: plain}', 'sl': '- ' + PYTAG + 'Point {x: 1, y: 2}',
+    'ps': '- ' + PYTAG + 'Bag {items: *a}', 'pn': '- !!python/object/new:' + __name__ + '.Pair [*a]',
+    'pk': '- ? ' + PYTAG + 'Key {name: k}\n  : kv', 'ys': '- !Bag {items: *a}', 'yk': '- ? !Key {name: k}\n  : kv',
 }
 DOCS = {
     'plain': (False, False, ['s', 's']), 'scanerr': (False, False, ['s', 'SE']), 'parseerr': (False, False, ['s', 'PE']),
@@ -314,6 +371,9 @@ DOCS = {
     'anchors': (False, False, ['da', 'ua']), 'usealias': (False, False, ['ua']), 'rec': (False, False, ['rec']),
     'pyobj': (False, False, ['py']), 'deepfail': (False, False, ['s', 'dk']), 'ucall': (False, False, ['cu', 's']),
     'ugen': (False, False, ['cg', 'cu']), 'umulti': (False, False, ['s', 'cm']), 'paths': (False, False, ['pt', 'ir', 's']),
+    'pyplain': (False, False, ['po', 's']), 'slots': (False, False, ['sl']), 'deepalias': (False, False, ['da', 'ps']),
+    'newalias': (False, False, ['da', 'pn']), 'keyed': (False, False, ['pk']), 'ydeep': (False, False, ['da', 'ys']),
+    'ykeyed': (False, False, ['s', 'yk']),
 }
 
 
@@ -482,15 +542,39 @@ def canon(o, memo=None):
     if isinstance(o, (list, tuple)):
         return name + '[' + ','.join(canon(x, memo) for x in o) + ']'
     if isinstance(o, dict):
-        return name + '{' + ','.join(canon(k, memo) + '=' + canon(v, memo) for k, v in o.items()) + '}'
+        # a mapping is what it answers: an entry whose key no longer finds it (hashed in another state) is marked
+        return name + '{' + ','.join(canon(k, memo) + _finds(o, k) + '=' + canon(v, memo) for k, v in o.items()) + '}'
     if isinstance(o, (set, frozenset)):
-        return name + '{' + ','.join(sorted(canon(x, memo) for x in o)) + '}'
+        return name + '{' + ','.join(sorted(canon(x, memo) + _finds(o, x) for x in o)) + '}'
     if hasattr(o, 'isoformat'):
         return name + ':' + o.isoformat()
+    # the state of an instance: its __dict__ and every slot of its classes that is set
     d = getattr(o, '__dict__', None)
-    if isinstance(d, dict):
-        return name + '(' + ','.join(k + '=' + canon(v, memo) for k, v in sorted(d.items())) + ')'
-    return name + ':' + repr(o)
+    attrs = dict(d) if isinstance(d, dict) else {}
+    slots = False
+    for c in t.__mro__:
+        sl = c.__dict__.get('__slots__', ())
+        for k in ((sl,) if isinstance(sl, str) else tuple(sl)):
+            slots = True
+            if k in ('__dict__', '__weakref__'):
+                continue
+            try:
+                attrs.setdefault(k, object.__getattribute__(o, k))
+            except AttributeError:
+                pass
+    if isinstance(d, dict) or slots:
+        return name + '(' + ','.join(k + '=' + canon(v, memo) for k, v in sorted(attrs.items())) + ')'
+    return name + ':' + ADDR_RE.sub('0x', repr(o))
+
+
+ADDR_RE = re.compile(r'0x[0-9a-fA-F]+')
+
+
+def _finds(container, k):
+    try:
+        return '' if k in container else '!lost'
+    except Exception as e:
+        return '!unhashable:' + type(e).__name__
 
 
 def mark(m, pos):
@@ -625,6 +709,21 @@ def _walk(o, memo, depth, out, path):
                         types.MemberDescriptorType, property)):
         f = getattr(o, '__func__', o)
         out.append('%s=fn:%s.%s' % (path, getattr(f, '__module__', '?'), getattr(f, '__qualname__', repr(type(o)))))
+        # what a function object of the package holds between calls: default-argument values (evaluated ONCE, at import:
+        # a mutable default is one object for the whole process), function attributes, closure cells
+        if isinstance(f, types.FunctionType) and str(f.__module__).startswith('yaml') and id(f) not in memo.setdefault('fn', set()):
+            memo['fn'].add(id(f))
+            held = [('.__defaults__[%d]' % i, v) for i, v in enumerate(f.__defaults__ or ())]
+            held += [('.__kwdefaults__[%s]' % k, v) for k, v in sorted((f.__kwdefaults__ or {}).items())]
+            held += [('.__dict__[%s]' % k, v) for k, v in sorted(f.__dict__.items())]
+            for i, c in enumerate(f.__closure__ or ()):
+                try:
+                    held.append(('.__closure__[%d]' % i, c.cell_contents))
+                except ValueError:
+                    pass
+            for suffix, v in held:
+                if not isinstance(v, PRIMS):
+                    _walk(v, memo, depth + 1, out, path + suffix)
     elif isinstance(o, types.ModuleType):
         out.append('%s=module:%s' % (path, o.__name__))
     elif isinstance(o, (io.StringIO, io.BytesIO)):      # module-level buffers: their CONTENT is state
